@@ -13,6 +13,7 @@ extracted `PIPELINE_MAX_SIZE_IN_DOCS`, or a number); a call is `<c>` or `<c>:<ph
            `pu` purge · `sm` save_metas · `gl` `gd` `gm` GC lock/delete/managed.json ·
            `mt` merge thread · `ep` `es` end_merge purge/save · `rl` reload ·
            `s2` `e2` the directory sync after the meta.json rename (commit / end_merge)
+`cap` — the extracted capacity of the document channel (`PIPELINE_MAX_SIZE_IN_DOCS`)
 response: `<res>,<res>,…|<content of meta.json as doc ids>|<stale lock 0/1>|<searcher content>`
 -/
 namespace TantivyModel.Driver.C11
@@ -59,6 +60,7 @@ def showRes : Res → String
   | .ok => "ok" | .err => "err" | .panic => "panic" | .hang => "hang"
 
 def handle : List String → String
+  | ["cap"] => toString codeCap
   | ["run", cap, toks] =>
     match (if cap == "cap" then some codeCap else cap.toNat?), (if toks == "-" then some [] else (toks.splitOn ",").mapM parseTok) with
     | some cap, some cps =>
